@@ -23,8 +23,8 @@ META = {
                 "delivery both ways; the real USBSerialDevice (max packet 2, 8 and 64) is driven by TLC-simulated host/stream "
                 "schedules and by seeded-random enumeration orders, request mixes, data sizes and back-pressure patterns, "
                 "and every recorded transaction is validated by TLC against the specification, ending with a drain check.",
-        "note": "Host obeys inter-packet timing; SET_CONFIGURATION/CLEAR_FEATURE are only issued before data traffic (toggle "
-                "reset semantics are not part of C57). Descriptor contents are checked structurally (USB 2.0 ch.9 / CDC): "
+        "note": "Host obeys inter-packet timing; SET_CONFIGURATION is only issued before data traffic; CLEAR_FEATURE(ENDPOINT_HALT) "
+                "restarts the addressed direction's toggle (the host restarts its own). Descriptor contents are checked structurally (USB 2.0 ch.9 / CDC): "
                 "lengths, vid/pid, endpoint set. Trusted: TLC, amaranth.sim, the UTMI host model.",
         "technique": "TLA+ transaction-level spec, TLC exhaustive + simulate-and-replay + batch trace validation of real-device traces",
         "design_ref": "DESIGN.md §5 C57",
@@ -333,6 +333,20 @@ class Bench:
                     await host.cycle(ctx)
                 self.rx_budget = 0
                 self._flush(None)
+            elif k == "clear_halt":  # CLEAR_FEATURE(ENDPOINT_HALT) for one direction of the data endpoint (index 0x84 / 0x04)
+                index = op[1]
+                if index == 0x84:    # Env: no IN packet may be waiting for its ACK -> poll (and ACK) until the endpoint NAKs
+                    for _ in range(12):
+                        rec, resp = await self.bulk_in(ctx, host, addr, True)
+                        self._flush(rec)
+                        if resp["kind"] != "data":
+                            break
+                        await host.idle(ctx, 4)
+                q = _mkreq(0, 2, 0, 1, 0, index, 0)
+                outcome, data = await self.control(ctx, host, addr, q, ())
+                self._flush({"e": "ctl", "addr": addr, "req": q, "outcome": outcome, "data": data})
+                if outcome == "ok" and index == 0x04:
+                    self.exp_tog = 0
             elif k == "rx_p":
                 self.rx_p = op[1]
             elif k == "idle":
@@ -371,6 +385,9 @@ class Bench:
 def req(type_, recipient, dirin, request, value=0, index=0, length=0):
     return {"type": type_, "recipient": recipient, "dirin": bool(dirin), "request": request,
             "value": value, "index": index, "length": length}
+
+
+_mkreq = req      # (`req` is shadowed by a loop variable inside Bench._bench)
 
 
 def enumeration_ops(rng, maxpkt):
@@ -502,6 +519,8 @@ def behaviour_to_ops(beh):
 
 
 def classify(trace, matched, status, meta):
+    if status.startswith("env_"):       # the stimulus left the assumed Env: a generator bug, never a verdict on the gateware
+        raise tlc.TLCError("usbserial stimulus outside Env: %s (%s)" % (status, meta))
     steps = trace["steps"]
     k = matched if status != "ok" else matched + 1
     pattern = "other"
@@ -525,7 +544,8 @@ def check_C57(rep):
     rep.rule = ("one case = one host transaction / control transfer / stream batch recorded on the real USBSerialDevice and "
                 "accepted by TLC; non-trivial = it moved data or completed a control transfer; distinct by "
                 "(record kind, request class or payload length, response kind, toggle, ack)")
-    rep.assume("host obeys inter-packet delays; SET_CONFIGURATION / CLEAR_FEATURE only before data traffic")
+    rep.assume("host obeys inter-packet delays; SET_CONFIGURATION only before data traffic; CLEAR_FEATURE(ENDPOINT_HALT) for the IN "
+               "direction only while no IN packet is waiting for its ACK; after it the host restarts its own toggle")
     rep.assume("a NAK is always an allowed answer to a bulk token (liveness is judged by the drain check at the end of each trace)")
 
     # 1. exhaustive exploration of the specification (allowed-answer relation => exactly-once theorems)
@@ -676,6 +696,46 @@ def check_C57(rep):
                                   "transfer answered %r (expected NAK / silence)" % bad[:3], None)
                 items[maxpkt].append((tr, {"maxpkt": maxpkt, "buf": 2 * maxpkt - 1,
                                            "origin": "ctl-with-interleaved-polls/" + mode, "n": i}))
+
+    # 3f. CLEAR_FEATURE(ENDPOINT_HALT) in the middle of traffic, for each direction of the data endpoint, after an odd and an
+    #     even number of packets in that and in the other direction: only the addressed direction's toggle restarts at DATA0.
+    for maxpkt in ((8,) if quick else (2, 8, 64)):
+        bench = benches[maxpkt]
+        for index in (0x84, 0x04):
+            for n_in, n_out in ((1, 1), (2, 1), (1, 2), (3, 3)) if quick else ((1, 1), (2, 1), (1, 2), (2, 2), (3, 3), (0, 1), (1, 0)):
+                rng = random.Random("%s-clearhalt-%d-%d-%d-%d" % (rep.seed, maxpkt, index, n_in, n_out))
+                ops = [("ctl", None, req(0, 0, 0, 5, rng.randint(1, 127), 0, 0), ()),
+                       ("ctl", None, req(0, 0, 0, 9, 1, 0, 0), ())]
+                val, otog = rng.randrange(200), 0
+
+                def traffic(n_i, n_o):
+                    nonlocal val, otog
+                    out = []
+                    for _ in range(n_i):
+                        n = rng.randint(1, maxpkt - 1) if maxpkt > 2 else 1
+                        out.append(("tx", [[(val + j) % 256, j == n - 1] for j in range(n)], True))
+                        val += n
+                        out += [("in", None, True)] * 2
+                    for _ in range(n_o):
+                        n = rng.randint(1, maxpkt)
+                        out.append(("out", None, otog, [(val + j) % 256 for j in range(n)], True))
+                        otog ^= 1
+                        val += n
+                    return out
+                ops += traffic(n_in, n_out)
+                ops.append(("clear_halt", index))
+                if index == 0x04:
+                    otog = 0                       # the host restarts its own OUT toggle [USB2.0 9.4.5]
+                ops += traffic(2, 2)
+                ops.append(("clear_halt", 0x04 if index == 0x84 else 0x84))
+                if index == 0x84:
+                    otog = 0
+                ops += traffic(1, 1)
+                sc = {"rng": rng, "ops": ops, "gap": rng.choice([0, 0.2]), "stall": rng.choice([0, 0.2]),
+                      "rx_p": 1.0, "tx_p": 1.0}
+                tr = bench.run(sc)
+                items[maxpkt].append((tr, {"maxpkt": maxpkt, "buf": 2 * maxpkt - 1,
+                                           "origin": "clear-halt/0x%02x/in=%d/out=%d" % (index, n_in, n_out), "n": 0}))
 
     # 4. TLC decides
     for maxpkt, its in items.items():
